@@ -89,6 +89,8 @@ pub enum SOp {
     ParamSize { i: u32 },
     ParamSection { i: u32, len: u32, off: u32 },
     LogEvent { len: u32 },
+    /// write_output of `len` zero bytes (from an untouched memory region) at offset `off` of the return value.
+    WriteOutput { len: u32, off: u32 },
     SelfBalance,
     /// Re-entrant call of entrypoint `reenter<script>` of this very instance.
     InvokeSelf { script: usize },
@@ -96,6 +98,9 @@ pub enum SOp {
     InvokeOther { tag: u32, resp: Response },
     /// A state operation with a pointer/length pair outside linear memory (must trap).
     OutOfBounds { func: u8, ptr: u32, len: u32 },
+    /// Recurse `n` frames down, perform a transfer (interrupt) at the bottom, then recurse `m`
+    /// frames further: total nesting n+m+2 against the limit of 1024 activation frames.
+    DeepCall { n: u32, m: u32, resp: Response },
 }
 
 #[derive(Clone, Debug, Serialize, Deserialize)]
@@ -113,6 +118,8 @@ pub enum VFocus {
     Handles,
     /// C13 (end to end): fresh vs stored artifact, executed twice.
     Resume,
+    /// C02 (chain level): remaining energy = budget - charges, out-of-energy iff the budget is below the total.
+    Energy,
 }
 
 #[derive(Clone, Debug, Serialize, Deserialize)]
@@ -176,6 +183,8 @@ const DATA_BASE: u32 = 0x1000;
 const RB_BASE: u32 = 0x6000; // 64 bytes per operation
 const RES_BASE: u32 = 0xC000; // 8 bytes per operation
 const MAX_OPS: usize = 96;
+const ZERO_BASE: u32 = 0xD000; // 12 KiB that no script touches: source of write_output data
+const MAX_RETURN_VALUE_P4: usize = 16384;
 
 // host function table: (name, params, result)
 const HOSTS: [(&str, &[Ty], Option<Ty>); 19] = [
@@ -292,6 +301,16 @@ pub fn emit_module(plan: &VPlan) -> Vec<u8> {
         for (i, op) in script.ops.iter().enumerate().take(MAX_OPS) {
             let rb = RB_BASE + 64 * i as u32;
             let res_addr = i32c(RES_BASE + 8 * i as u32);
+            if let SOp::DeepCall { n, m, .. } = op {
+                let down = plan.scripts.len() as u32 + 1;
+                body.push(Stmt::Store(
+                    0x37,
+                    0,
+                    res_addr,
+                    Expr::Un(0xad, Box::new(Expr::Call(down, vec![i32c(*n), i32c(*m)]))),
+                ));
+                continue;
+            }
             // (host index, args)
             let (h, args): (u32, Vec<Expr>) = match op {
                 SOp::Lookup { key } => (0, vec![i32c(da.put(key)), i32c(key.len() as u32)]),
@@ -310,6 +329,7 @@ pub fn emit_module(plan: &VPlan) -> Vec<u8> {
                 SOp::ParamSize { i } => (13, vec![i32c(*i)]),
                 SOp::ParamSection { i, len, off } => (14, vec![i32c(*i), i32c(rb), i32c((*len).min(64)), i32c(*off)]),
                 SOp::LogEvent { len } => (15, vec![i32c(DATA_BASE), i32c(*len)]),
+                SOp::WriteOutput { len, off } => (18, vec![i32c(ZERO_BASE), i32c(*len), i32c(*off)]),
                 SOp::SelfBalance => (16, vec![]),
                 SOp::InvokeSelf { script } => {
                     let p = self_call_payload(*script);
@@ -319,6 +339,7 @@ pub fn emit_module(plan: &VPlan) -> Vec<u8> {
                     let p = other_payload(*tag);
                     (17, vec![i32c(*tag), i32c(da.put(&p)), i32c(p.len() as u32)])
                 }
+                SOp::DeepCall { .. } => unreachable!(),
                 SOp::OutOfBounds { func, ptr, len } => match func % 6 {
                     0 => (0, vec![i32c(*ptr), i32c(*len)]),
                     1 => (1, vec![i32c(*ptr), i32c(*len)]),
@@ -335,17 +356,33 @@ pub fn emit_module(plan: &VPlan) -> Vec<u8> {
             } else {
                 Stmt::Store(0x37, 0, res_addr, Expr::Un(0xad, Box::new(call)))
             });
+            if let SOp::WriteOutput { off, .. } = op {
+                // local 1 tracks the length of the return value: L = max(L, off + written)
+                let tmp = || Expr::Bin(
+                    0x6a,
+                    Box::new(i32c(*off)),
+                    Box::new(Expr::Un(0xa7, Box::new(Expr::Load(0x29, 0, Box::new(i32c(RES_BASE + 8 * i as u32)))))),
+                );
+                body.push(Stmt::LocalSet(
+                    1,
+                    Expr::Select(Box::new(tmp()), Box::new(Expr::LocalGet(1)), Box::new(Expr::Bin(0x4b, Box::new(tmp()), Box::new(Expr::LocalGet(1))))),
+                ));
+            }
         }
         let n = script.ops.len().min(MAX_OPS) as u32;
-        // return value = results ‖ read buffers
-        body.push(Stmt::Drop(Expr::Host(18, vec![i32c(RES_BASE), i32c(8 * n), i32c(0)])));
-        body.push(Stmt::Drop(Expr::Host(18, vec![i32c(RB_BASE), i32c(64 * n), i32c(8 * n)])));
+        // return value = (what the script wrote itself) ‖ results ‖ read buffers
+        body.push(Stmt::Drop(Expr::Host(18, vec![i32c(RES_BASE), i32c(8 * n), Expr::LocalGet(1)])));
+        body.push(Stmt::Drop(Expr::Host(18, vec![
+            i32c(RB_BASE),
+            i32c(64 * n),
+            Expr::Bin(0x6a, Box::new(Expr::LocalGet(1)), Box::new(i32c(8 * n))),
+        ])));
         funcs.push(Func {
             sig:    Sig {
                 params: vec![Ty::I64],
                 result: Some(Ty::I32),
             },
-            locals: Vec::new(),
+            locals: vec![Ty::I32],
             body,
             ret:    Some(Expr::I32(script.code)),
         });
@@ -362,11 +399,57 @@ pub fn emit_module(plan: &VPlan) -> Vec<u8> {
         ret:    Some(Expr::I32(0)),
     });
     exports.push(("init_c".to_string(), plan.scripts.len() as u32));
+    // helpers for DeepCall: $down(n, m) and $down2(m)
+    let down = plan.scripts.len() as u32 + 1;
+    let down2 = down + 1;
+    funcs.push(Func {
+        sig:    Sig {
+            params: vec![Ty::I32, Ty::I32],
+            result: Some(Ty::I32),
+        },
+        locals: Vec::new(),
+        body:   Vec::new(),
+        ret:    Some(Expr::If(
+            Ty::I32,
+            Box::new(Expr::LocalGet(0)),
+            Vec::new(),
+            Box::new(Expr::Call(down, vec![Expr::Bin(0x6b, Box::new(Expr::LocalGet(0)), Box::new(Expr::I32(1))), Expr::LocalGet(1)])),
+            vec![Stmt::Drop(Expr::Host(17, vec![i32c(0), i32c(0x200), i32c(40)]))],
+            Box::new(Expr::Call(down2, vec![Expr::LocalGet(1)])),
+        )),
+    });
+    funcs.push(Func {
+        sig:    Sig {
+            params: vec![Ty::I32],
+            result: Some(Ty::I32),
+        },
+        locals: Vec::new(),
+        body:   Vec::new(),
+        ret:    Some(Expr::If(
+            Ty::I32,
+            Box::new(Expr::LocalGet(0)),
+            Vec::new(),
+            Box::new(Expr::Call(down2, vec![Expr::Bin(0x6b, Box::new(Expr::LocalGet(0)), Box::new(Expr::I32(1)))])),
+            Vec::new(),
+            Box::new(Expr::I32(7)),
+        )),
+    });
     // filler at DATA_BASE for log events
-    let mut datas = vec![Data {
-        offset: 0x100,
-        bytes:  (0..64u8).collect(),
-    }];
+    let mut datas = vec![
+        Data {
+            offset: 0x100,
+            bytes:  (0..64u8).collect(),
+        },
+        // transfer payload used by DeepCall: account address ‖ amount
+        Data {
+            offset: 0x200,
+            bytes:  {
+                let mut p = vec![7u8; 32];
+                p.extend_from_slice(&5u64.to_le_bytes());
+                p
+            },
+        },
+    ];
     datas.extend(da.datas);
     let m = Module {
         sigs: Vec::new(),
@@ -403,6 +486,8 @@ struct MState {
     iters:   Vec<Option<MIter>>,
     changed: bool,
     uid:     u64,
+    /// entries whose value was created or written in this activation (no copy charge on write)
+    owned:   std::collections::BTreeSet<u64>,
 }
 
 #[derive(Debug, Clone, PartialEq)]
@@ -423,7 +508,48 @@ struct MCtx<'a> {
     queries: bool,
     /// the simulated memory image of the data region (for log events and writes)
     mem:     Vec<u8>,
+    /// Sum of the scheduled charges of the host calls reached so far (frozen copy of the
+    /// cost functions; interpreter instructions and tree traversal are not included, so this
+    /// is a lower bound of what the engine must have charged).
+    min_energy: u64,
+    /// return value of the current activation and whether its size is limited (P4)
+    rv:      Vec<u8>,
+    limit_rv: bool,
+    /// where the result dump of the last finished activation starts in its return value
+    dump_at: usize,
 }
+
+/// write_output as documented: returns None for a trap, otherwise the number of bytes written.
+fn model_write_output(ctx: &mut MCtx, start: u64, bytes: &[u8], off: u32) -> Option<u64> {
+    let len = bytes.len();
+    ctx.min_energy += 10 + len as u64;
+    if start + len as u64 > MEM {
+        return None;
+    }
+    let off = off as usize;
+    if off > ctx.rv.len() {
+        return None;
+    }
+    let mut end = off + len;
+    if ctx.limit_rv {
+        end = end.min(MAX_RETURN_VALUE_P4);
+    }
+    if ctx.rv.len() < end {
+        ctx.min_energy += 30 * (end - ctx.rv.len()) as u64;
+        ctx.rv.resize(end, 0);
+    }
+    let n = (end - off).min(len);
+    ctx.rv[off..off + n].copy_from_slice(&bytes[..n]);
+    Some(n as u64)
+}
+
+// frozen copy of the scheduled host-call charges
+fn c_copy_from_host(x: u64) -> u64 { 10 + x }
+fn c_lookup(k: u64) -> u64 { 80 + 4 * c_copy_from_host(k) + 16 * k }
+fn c_create(k: u64) -> u64 { 48 + 8 * c_copy_from_host(k) + 100 * k } // keys <= 64 bytes here
+fn c_delete(k: u64) -> u64 { 80 + 4 * c_copy_from_host(k) + 16 * k }
+fn c_copy_parameter(l: u64) -> u64 { if l <= 1024 { 10 + l } else { 10 + 1000 * l } }
+fn c_additional_entry(x: u64) -> u64 { 100 * x }
 
 impl MState {
     fn entry_alive(&self, h: u64) -> Option<(Vec<u8>, bool)> {
@@ -448,6 +574,40 @@ fn copy_section(src: &[u8], len: u32, off: u32) -> Vec<u8> {
     src[off..off + n].to_vec()
 }
 
+
+fn model_response(resp: &Response, ctx: &mut MCtx) -> u64 {
+    match resp {
+        Response::Success { data, has_data, new_balance } => {
+            ctx.balance = *new_balance;
+            if *has_data {
+                let len = ctx.params.len() as u64;
+                ctx.params.push(data.clone());
+                len << 40
+            } else {
+                0
+            }
+        }
+        Response::Failure(k) => match failure_kind(*k) {
+            InvokeFailure::ContractReject { code, data } => {
+                let len = ctx.params.len() as u64;
+                ctx.params.push(data);
+                (len << 40) | (code as u32 as u64)
+            }
+            InvokeFailure::InsufficientAmount => 0x01_0000_0000,
+            InvokeFailure::NonExistentAccount => 0x02_0000_0000,
+            InvokeFailure::NonExistentContract => 0x03_0000_0000,
+            InvokeFailure::NonExistentEntrypoint => 0x04_0000_0000,
+            InvokeFailure::SendingV0Failed => 0x05_0000_0000,
+            InvokeFailure::RuntimeError => 0x06_0000_0000,
+            InvokeFailure::UpgradeInvalidModuleRef => 0x07_0000_0000,
+            InvokeFailure::UpgradeInvalidContractName => 0x08_0000_0000,
+            InvokeFailure::UpgradeInvalidVersion => 0x09_0000_0000,
+            InvokeFailure::SignatureDataMalformed => 0x0a_0000_0000,
+            InvokeFailure::SignatureCheckFailed => 0x0b_0000_0000,
+        },
+    }
+}
+
 /// Run script `si` of the plan against the model. Returns the outcome and
 /// whether the (model) state ends up committed is the caller's business.
 fn model_run(plan: &VPlan, si: usize, st: &mut MState, ctx: &mut MCtx) -> MOutcome {
@@ -464,14 +624,17 @@ fn model_run(plan: &VPlan, si: usize, st: &mut MState, ctx: &mut MCtx) -> MOutco
     for i in 0..n {
         let op = &script.ops[i];
         let r: u64 = match op {
-            SOp::Lookup { key } => match st.map.get(key) {
+            SOp::Lookup { key } => {
+                ctx.min_energy += c_lookup(key.len() as u64);
+                match st.map.get(key) {
                 Some((_, uid)) => {
                     st.entries.push((key.clone(), *uid));
                     ((st.gen as u64) << 32) | (st.entries.len() as u64 - 1)
                 }
                 None => NONE64,
-            },
+            }}
             SOp::Create { key } => {
+                ctx.min_energy += c_create(key.len() as u64);
                 st.changed = true;
                 if st.locked_key(key) {
                     NONE64
@@ -484,11 +647,13 @@ fn model_run(plan: &VPlan, si: usize, st: &mut MState, ctx: &mut MCtx) -> MOutco
                         }
                     };
                     st.map.insert(key.clone(), (Vec::new(), uid));
+                    st.owned.insert(uid);
                     st.entries.push((key.clone(), uid));
                     ((st.gen as u64) << 32) | (st.entries.len() as u64 - 1)
                 }
             }
             SOp::Delete { key } => {
+                ctx.min_energy += c_delete(key.len() as u64);
                 st.changed = true;
                 if st.map.is_empty() {
                     1
@@ -501,6 +666,7 @@ fn model_run(plan: &VPlan, si: usize, st: &mut MState, ctx: &mut MCtx) -> MOutco
                 }
             }
             SOp::DeletePrefix { key } => {
+                ctx.min_energy += 10 * key.len() as u64;
                 st.changed = true;
                 if st.map.is_empty() {
                     1
@@ -519,6 +685,7 @@ fn model_run(plan: &VPlan, si: usize, st: &mut MState, ctx: &mut MCtx) -> MOutco
                 }
             }
             SOp::Iterate { key } => {
+                ctx.min_energy += 80 + 100 * key.len() as u64;
                 let ks: Vec<Vec<u8>> = st.map.keys().filter(|k| k.starts_with(key)).cloned().collect();
                 if ks.is_empty() {
                     NONE64
@@ -534,6 +701,7 @@ fn model_run(plan: &VPlan, si: usize, st: &mut MState, ctx: &mut MCtx) -> MOutco
                 }
             }
             SOp::IterNext { it } => {
+                ctx.min_energy += 32;
                 let h = val(it, &res);
                 let (gen, idx) = ((h >> 32) as u32, (h & 0xffff_ffff) as usize);
                 if gen != st.gen {
@@ -558,6 +726,7 @@ fn model_run(plan: &VPlan, si: usize, st: &mut MState, ctx: &mut MCtx) -> MOutco
                 }
             }
             SOp::IterDelete { it } => {
+                ctx.min_energy += 10;
                 let h = val(it, &res);
                 let (gen, idx) = ((h >> 32) as u32, (h & 0xffff_ffff) as usize);
                 if gen != st.gen {
@@ -578,6 +747,7 @@ fn model_run(plan: &VPlan, si: usize, st: &mut MState, ctx: &mut MCtx) -> MOutco
                 }
             }
             SOp::IterKeySize { it } => {
+                ctx.min_energy += 10;
                 let h = val(it, &res);
                 let (gen, idx) = ((h >> 32) as u32, (h & 0xffff_ffff) as usize);
                 if gen != st.gen {
@@ -596,6 +766,7 @@ fn model_run(plan: &VPlan, si: usize, st: &mut MState, ctx: &mut MCtx) -> MOutco
                 }
             }
             SOp::IterKeyRead { it, len, off } => {
+                ctx.min_energy += c_copy_from_host((*len).min(64) as u64);
                 let h = val(it, &res);
                 let (gen, idx) = ((h >> 32) as u32, (h & 0xffff_ffff) as usize);
                 if gen != st.gen {
@@ -612,23 +783,32 @@ fn model_run(plan: &VPlan, si: usize, st: &mut MState, ctx: &mut MCtx) -> MOutco
                     }
                 }
             }
-            SOp::EntryRead { e, len, off } => match st.entry_alive(val(e, &res)) {
+            SOp::EntryRead { e, len, off } => {
+                ctx.min_energy += 32 + ((*len).min(64) / 8) as u64;
+                match st.entry_alive(val(e, &res)) {
                 Some((k, true)) => {
                     let c = copy_section(&st.map[&k].0, (*len).min(64), *off);
                     rbufs[i][..c.len()].copy_from_slice(&c);
                     c.len() as u64
                 }
                 _ => NONE32,
-            },
+            }}
             SOp::EntryWrite { e, data, off } => {
+                ctx.min_energy += 32 + (data.len() as u64 / 8);
                 st.changed = true;
                 match st.entry_alive(val(e, &res)) {
                     Some((k, true)) => {
+                        let uid = st.map[&k].1;
                         let v = &mut st.map.get_mut(&k).unwrap().0;
+                        if st.owned.insert(uid) {
+                            // first write in this activation: the existing value is copied
+                            ctx.min_energy += c_additional_entry(v.len() as u64);
+                        }
                         let off = *off as usize;
                         if off <= v.len() {
                             let end = off + data.len();
                             if v.len() < end {
+                                ctx.min_energy += c_additional_entry((end - v.len()) as u64);
                                 v.resize(end, 0);
                             }
                             v[off..end].copy_from_slice(data);
@@ -640,11 +820,15 @@ fn model_run(plan: &VPlan, si: usize, st: &mut MState, ctx: &mut MCtx) -> MOutco
                     _ => NONE32,
                 }
             }
-            SOp::EntrySize { e } => match st.entry_alive(val(e, &res)) {
-                Some((k, true)) => st.map[&k].0.len() as u64,
-                _ => NONE32,
-            },
+            SOp::EntrySize { e } => {
+                ctx.min_energy += 32;
+                match st.entry_alive(val(e, &res)) {
+                    Some((k, true)) => st.map[&k].0.len() as u64,
+                    _ => NONE32,
+                }
+            }
             SOp::EntryResize { e, size } => {
+                ctx.min_energy += 10;
                 st.changed = true;
                 let h = val(e, &res);
                 let (gen, idx) = ((h >> 32) as u32, (h & 0xffff_ffff) as usize);
@@ -655,6 +839,14 @@ fn model_run(plan: &VPlan, si: usize, st: &mut MState, ctx: &mut MCtx) -> MOutco
                 } else {
                     match st.entry_alive(h) {
                         Some((k, true)) => {
+                            let uid = st.map[&k].1;
+                            let existing = st.map[&k].0.len() as u64;
+                            if st.owned.insert(uid) {
+                                ctx.min_energy += c_additional_entry(existing.min(*size as u64));
+                            }
+                            if *size as u64 > existing {
+                                ctx.min_energy += c_additional_entry(*size as u64 - existing);
+                            }
                             st.map.get_mut(&k).unwrap().0.resize(*size as usize, 0);
                             1
                         }
@@ -666,7 +858,9 @@ fn model_run(plan: &VPlan, si: usize, st: &mut MState, ctx: &mut MCtx) -> MOutco
                 Some(p) => p.len() as u64,
                 None => NONE32,
             },
-            SOp::ParamSection { i: pi, len, off } => match ctx.params.get(*pi as usize) {
+            SOp::ParamSection { i: pi, len, off } => {
+                ctx.min_energy += c_copy_parameter((*len).min(64) as u64);
+                match ctx.params.get(*pi as usize) {
                 Some(p) => {
                     let len = (*len).min(64) as usize;
                     let off = *off as usize;
@@ -679,12 +873,13 @@ fn model_run(plan: &VPlan, si: usize, st: &mut MState, ctx: &mut MCtx) -> MOutco
                     c.len() as u64
                 }
                 None => NONE32,
-            },
+            }}
             SOp::LogEvent { len } => {
                 if DATA_BASE as u64 + *len as u64 > MEM {
                     return MOutcome::Trap;
                 }
                 if *len <= MAX_LOG_SIZE {
+                    ctx.min_energy += 500 + 1000 * *len as u64;
                     if !ctx.limit_logs || ctx.logs < MAX_NUM_LOGS {
                         ctx.logs += 1;
                         1
@@ -695,8 +890,16 @@ fn model_run(plan: &VPlan, si: usize, st: &mut MState, ctx: &mut MCtx) -> MOutco
                     NONE32 // -1 as i32, zero-extended when stored
                 }
             }
+            SOp::WriteOutput { len, off } => {
+                let zeros = vec![0u8; *len as usize];
+                match model_write_output(ctx, ZERO_BASE as u64, &zeros, *off) {
+                    Some(n) => n,
+                    None => return MOutcome::Trap,
+                }
+            }
             SOp::SelfBalance => ctx.balance,
             SOp::InvokeSelf { script: target } => {
+                ctx.min_energy += 500 + c_copy_parameter(2);
                 if *target == 0 || *target >= plan.scripts.len() || ctx.depth >= 3 {
                     // the chain stub answers "entrypoint does not exist" for these
                     0x04_0000_0000
@@ -710,16 +913,19 @@ fn model_run(plan: &VPlan, si: usize, st: &mut MState, ctx: &mut MCtx) -> MOutco
                         iters: Vec::new(),
                         changed: false,
                         uid: st.uid,
+                        owned: Default::default(),
                     };
                     let saved_params = std::mem::replace(&mut ctx.params, vec![vec![*target as u8, 0xAA]]);
                     let saved_logs = ctx.logs;
                     let saved_balance = ctx.balance;
+                    let saved_rv = std::mem::take(&mut ctx.rv);
                     ctx.logs = 0;
                     ctx.depth += 1;
                     let o = model_run(plan, *target, &mut inner, ctx);
                     ctx.depth -= 1;
                     ctx.logs = saved_logs;
                     ctx.params = saved_params;
+                    ctx.rv = saved_rv;
                     match o {
                         MOutcome::Trap => {
                             ctx.balance = saved_balance;
@@ -738,6 +944,7 @@ fn model_run(plan: &VPlan, si: usize, st: &mut MState, ctx: &mut MCtx) -> MOutco
                                 st.map = inner.map;
                                 st.uid = inner.uid;
                                 st.locks = inner.locks;
+                                st.owned = inner.owned;
                                 st.gen += 1;
                                 st.entries.clear();
                                 st.iters.clear();
@@ -753,6 +960,7 @@ fn model_run(plan: &VPlan, si: usize, st: &mut MState, ctx: &mut MCtx) -> MOutco
                 }
             }
             SOp::InvokeOther { tag, resp } => {
+                ctx.min_energy += 500;
                 if *tag >= 2 && !ctx.queries {
                     return MOutcome::Trap;
                 }
@@ -765,36 +973,20 @@ fn model_run(plan: &VPlan, si: usize, st: &mut MState, ctx: &mut MCtx) -> MOutco
                 if *tag <= 1 {
                     ctx.logs = 0;
                 }
-                match resp {
-                    Response::Success { data, has_data, new_balance } => {
-                        ctx.balance = *new_balance;
-                        if *has_data {
-                            let len = ctx.params.len() as u64;
-                            ctx.params.push(data.clone());
-                            len << 40
-                        } else {
-                            0
-                        }
-                    }
-                    Response::Failure(k) => match failure_kind(*k) {
-                        InvokeFailure::ContractReject { code, data } => {
-                            let len = ctx.params.len() as u64;
-                            ctx.params.push(data);
-                            (len << 40) | (code as u32 as u64)
-                        }
-                        InvokeFailure::InsufficientAmount => 0x01_0000_0000,
-                        InvokeFailure::NonExistentAccount => 0x02_0000_0000,
-                        InvokeFailure::NonExistentContract => 0x03_0000_0000,
-                        InvokeFailure::NonExistentEntrypoint => 0x04_0000_0000,
-                        InvokeFailure::SendingV0Failed => 0x05_0000_0000,
-                        InvokeFailure::RuntimeError => 0x06_0000_0000,
-                        InvokeFailure::UpgradeInvalidModuleRef => 0x07_0000_0000,
-                        InvokeFailure::UpgradeInvalidContractName => 0x08_0000_0000,
-                        InvokeFailure::UpgradeInvalidVersion => 0x09_0000_0000,
-                        InvokeFailure::SignatureDataMalformed => 0x0a_0000_0000,
-                        InvokeFailure::SignatureCheckFailed => 0x0b_0000_0000,
-                    },
+                model_response(resp, ctx)
+            }
+            SOp::DeepCall { n, m, resp } => {
+                ctx.min_energy += 500;
+                // n+1 frames for $down, the interrupt at the bottom, m+1 frames for $down2
+                if *n as u64 + 1 > 1024 {
+                    return MOutcome::Trap;
                 }
+                ctx.logs = 0;
+                let _ = model_response(resp, ctx);
+                if *n as u64 + *m as u64 + 2 > 1024 {
+                    return MOutcome::Trap;
+                }
+                7
             }
             SOp::OutOfBounds { ptr, len, .. } => {
                 if *ptr as u64 + *len as u64 > MEM {
@@ -806,14 +998,33 @@ fn model_run(plan: &VPlan, si: usize, st: &mut MState, ctx: &mut MCtx) -> MOutco
         };
         res[i] = r;
     }
-    let mut rv = Vec::with_capacity(72 * n);
+    let mut dump = Vec::with_capacity(8 * n);
     for r in &res {
-        rv.extend_from_slice(&r.to_le_bytes());
+        dump.extend_from_slice(&r.to_le_bytes());
     }
+    let mut dump2 = Vec::with_capacity(64 * n);
     for b in &rbufs {
-        rv.extend_from_slice(b);
+        dump2.extend_from_slice(b);
     }
     let _ = &ctx.mem;
+    // the script's own length tracking: L = max over its write_output calls of off + written
+    let mut l: u32 = 0;
+    for (i, op) in script.ops.iter().enumerate().take(n) {
+        if let SOp::WriteOutput { off, .. } = op {
+            let t = off.wrapping_add(res[i] as u32);
+            if t > l {
+                l = t;
+            }
+        }
+    }
+    if model_write_output(ctx, RES_BASE as u64, &dump, l).is_none() {
+        return MOutcome::Trap;
+    }
+    if model_write_output(ctx, RB_BASE as u64, &dump2, l.wrapping_add(8 * n as u32)).is_none() {
+        return MOutcome::Trap;
+    }
+    ctx.dump_at = l as usize;
+    let rv = std::mem::take(&mut ctx.rv);
     MOutcome::Done(script.code, rv)
 }
 
@@ -982,7 +1193,10 @@ impl Chain<'_> {
                             let scripted = self.plan.scripts[si]
                                 .ops
                                 .iter()
-                                .filter_map(|o| if let SOp::InvokeOther { resp, .. } = o { Some(resp.clone()) } else { None })
+                                .filter_map(|o| match o {
+                                    SOp::InvokeOther { resp, .. } | SOp::DeepCall { resp, .. } => Some(resp.clone()),
+                                    _ => None,
+                                })
                                 .nth(other_k);
                             other_k += 1;
                             match scripted {
@@ -1057,6 +1271,8 @@ fn g_script(rng: &mut Rng, focus: VFocus, nscripts: usize, pool: &mut Vec<Vec<u8
     };
     let flood = n >= 66;
     let oob_script = rng.chance(1, 5);
+    let mut rv_len: u32 = 0;
+    let deep_script = rng.chance(1, 8);
     let mut ops: Vec<SOp> = Vec::new();
     let mut entries: Vec<usize> = Vec::new();
     let mut iters: Vec<usize> = Vec::new();
@@ -1089,6 +1305,24 @@ fn g_script(rng: &mut Rng, focus: VFocus, nscripts: usize, pool: &mut Vec<Vec<u8
         };
         // at most a few hostile out-of-bounds pairs: most transactions should get past them
         let w_oob = if oob_script && !ops.iter().any(|o| matches!(o, SOp::OutOfBounds { .. })) { 1 } else { 0 };
+        if deep_script && i == n / 2 {
+            let total = *rng.pick(&[3u32, 40, 1023, 1024, 1025, 1030]);
+            let nn = rng.range(0, (total - 2) as u64) as u32;
+            ops.push(SOp::DeepCall {
+                n:    nn,
+                m:    total - 2 - nn,
+                resp: if rng.coin() {
+                    Response::Success {
+                        data:        Vec::new(),
+                        has_data:    false,
+                        new_balance: rng.below(1000),
+                    }
+                } else {
+                    Response::Failure(rng.below(8) as u8)
+                },
+            });
+            continue;
+        }
         let groups = [6u32, 6, w_iter, w_invoke, w_misc, w_oob];
         let op = match rng.weighted(&groups) {
             0 => match rng.below(6) {
@@ -1167,7 +1401,7 @@ fn g_script(rng: &mut Rng, focus: VFocus, nscripts: usize, pool: &mut Vec<Vec<u8
                     SOp::InvokeOther { tag: tag_, resp }
                 }
             }
-            4 => match rng.below(5) {
+            4 => match rng.below(7) {
                 0 => SOp::ParamSize { i: rng.below(4) as u32 },
                 1 | 2 => SOp::ParamSection {
                     i:   rng.below(4) as u32,
@@ -1177,6 +1411,18 @@ fn g_script(rng: &mut Rng, focus: VFocus, nscripts: usize, pool: &mut Vec<Vec<u8
                 3 => SOp::LogEvent {
                     len: *rng.pick(&[0u32, 1, 511, 512, 513, 4000]),
                 },
+                4 | 5 => {
+                    // offsets mostly where the return value currently ends (tracked approximately)
+                    let len = *rng.pick(&[0u32, 1, 100, 4000, 9000, 12000]);
+                    let off = match rng.below(6) {
+                        0 => 0,
+                        1 => rv_len + 1,
+                        2 => rv_len / 2,
+                        _ => rv_len,
+                    };
+                    rv_len = rv_len.max(off.saturating_add(len)).min(40000);
+                    SOp::WriteOutput { len, off }
+                }
                 _ => SOp::SelfBalance,
             },
             _ => {
@@ -1335,8 +1581,8 @@ fn viol(oracle: &str, sig: impl Into<String>, detail: String) -> Option<Violatio
 /// Which result slots belong to the property in focus (C15 only looks at state / iterator / entry / invoke results).
 fn slot_in_focus(focus: VFocus, op: &SOp) -> bool {
     match focus {
-        VFocus::Host | VFocus::Resume => true,
-        VFocus::Handles => !matches!(op, SOp::ParamSize { .. } | SOp::ParamSection { .. } | SOp::LogEvent { .. } | SOp::SelfBalance | SOp::OutOfBounds { .. }),
+        VFocus::Host | VFocus::Resume | VFocus::Energy => true,
+        VFocus::Handles => !matches!(op, SOp::ParamSize { .. } | SOp::ParamSection { .. } | SOp::LogEvent { .. } | SOp::WriteOutput { .. } | SOp::SelfBalance | SOp::OutOfBounds { .. }),
     }
 }
 
@@ -1358,10 +1604,12 @@ fn op_name(op: &SOp) -> &'static str {
         SOp::ParamSize { .. } => "get_parameter_size",
         SOp::ParamSection { .. } => "get_parameter_section",
         SOp::LogEvent { .. } => "log_event",
+        SOp::WriteOutput { .. } => "write_output",
         SOp::SelfBalance => "get_receive_self_balance",
         SOp::InvokeSelf { .. } => "invoke(self)",
         SOp::InvokeOther { .. } => "invoke",
         SOp::OutOfBounds { .. } => "out-of-bounds",
+        SOp::DeepCall { .. } => "deep-call",
     }
 }
 
@@ -1456,8 +1704,9 @@ pub fn execute(plan: &VPlan, rec: &mut Recorder) -> Option<Violation> {
         );
     }
 
-    // ---- reference model (C14 / C15) ----
-    if plan.focus != VFocus::Resume {
+    // ---- reference model (C14 / C15; for C13 only the frame budget across an interrupt) ----
+    let has_deep = plan.scripts.iter().any(|s| s.ops.iter().any(|o| matches!(o, SOp::DeepCall { .. })));
+    if plan.focus == VFocus::Host || plan.focus == VFocus::Handles || (plan.focus == VFocus::Resume && has_deep) {
         let params = params_for(plan.protocol);
         let mut st = MState::default();
         for (k, v) in &plan.initial {
@@ -1475,13 +1724,45 @@ pub fn execute(plan: &VPlan, rec: &mut Recorder) -> Option<Violation> {
             max_param: params.max_parameter_size,
             queries: params.support_queries,
             mem: Vec::new(),
+            min_energy: 0,
+            rv: Vec::new(),
+            limit_rv: params.limit_logs_and_return_values,
+            dump_at: 0,
         };
         let _ = ctx.plan;
         let mo = model_run(plan, 0, &mut st, &mut ctx);
         let pfx = if plan.focus == VFocus::Handles { "handles" } else { "host" };
+        if plan.focus == VFocus::Resume {
+            // An execution that nests n frames, is interrupted, and nests m more must hit the
+            // activation-frame limit exactly when the same nesting without an interrupt would.
+            let m_trap = matches!(mo, MOutcome::Trap);
+            let r_trap = matches!(r0.outcome, ROutcome::Trap);
+            if m_trap != r_trap {
+                return viol(
+                    "resume",
+                    "resume/frames-after-interrupt",
+                    format!(
+                        "a recursion interrupted at the bottom and resumed ends with {:?}; without the interruption the same nesting {} the limit of 1024 activation frames",
+                        r0.outcome,
+                        if m_trap { "exceeds" } else { "stays within" }
+                    ),
+                );
+            }
+        } else {
         match (&mo, &r0.outcome) {
             (MOutcome::Trap, ROutcome::Trap) => {}
             (MOutcome::Done(c, rvm), ROutcome::Done { code, rv }) => {
+                let used = plan.energy - r0.remaining;
+                if plan.focus == VFocus::Host && used < ctx.min_energy {
+                    return viol(
+                        "energy",
+                        "host/undercharged",
+                        format!(
+                            "the transaction was charged {} energy, but the scheduled charges of the host calls it made add up to at least {}",
+                            used, ctx.min_energy
+                        ),
+                    );
+                }
                 if c != code {
                     return viol("outcome", format!("{}/return-code", pfx), format!("entrypoint returned {} but the script returns {}", code, c));
                 }
@@ -1493,29 +1774,45 @@ pub fn execute(plan: &VPlan, rec: &mut Recorder) -> Option<Violation> {
                     );
                 }
                 let n = plan.scripts[0].ops.len().min(MAX_OPS);
-                let dc = dont_care_slots(plan, rvm);
-                for i in 0..n {
-                    let op = &plan.scripts[0].ops[i];
-                    if dc[i] || !slot_in_focus(plan.focus, op) {
-                        continue;
+                let d = ctx.dump_at;
+                if d + 72 * n > rvm.len() {
+                    // the result dump did not fit under the P4 return-value limit: compare raw bytes
+                    if plan.focus == VFocus::Host && rv != rvm {
+                        return viol("visible-result", format!("{}/return-value", pfx), "return value differs from the model's (dump truncated by the size limit)".into());
                     }
-                    let a = u64::from_le_bytes(rv[8 * i..8 * i + 8].try_into().unwrap());
-                    let b = u64::from_le_bytes(rvm[8 * i..8 * i + 8].try_into().unwrap());
-                    if a != b {
+                } else {
+                    if plan.focus == VFocus::Host && rv[..d] != rvm[..d] {
                         return viol(
                             "visible-result",
-                            format!("{}/result/{}", pfx, op_name(op)),
-                            format!("operation #{} {:?} returned {:#x}, the host-interface model says {:#x}", i, op, a, b),
+                            format!("{}/data/write_output", pfx),
+                            format!("the part of the return value written by the script ({} bytes) differs from the model's", d),
                         );
                     }
-                    let ra = &rv[8 * n + 64 * i..8 * n + 64 * i + 64];
-                    let rb = &rvm[8 * n + 64 * i..8 * n + 64 * i + 64];
-                    if ra != rb {
-                        return viol(
-                            "visible-result",
-                            format!("{}/data/{}", pfx, op_name(op)),
-                            format!("operation #{} {:?} delivered {} to the contract, the model says {}", i, op, hx(ra), hx(rb)),
-                        );
+                    let (rv, rvm) = (&rv[d..], &rvm[d..]);
+                    let dc = dont_care_slots(plan, rvm);
+                    for i in 0..n {
+                        let op = &plan.scripts[0].ops[i];
+                        if dc[i] || !slot_in_focus(plan.focus, op) {
+                            continue;
+                        }
+                        let a = u64::from_le_bytes(rv[8 * i..8 * i + 8].try_into().unwrap());
+                        let b = u64::from_le_bytes(rvm[8 * i..8 * i + 8].try_into().unwrap());
+                        if a != b {
+                            return viol(
+                                "visible-result",
+                                format!("{}/result/{}", pfx, op_name(op)),
+                                format!("operation #{} {:?} returned {:#x}, the host-interface model says {:#x}", i, op, a, b),
+                            );
+                        }
+                        let ra = &rv[8 * n + 64 * i..8 * n + 64 * i + 64];
+                        let rb = &rvm[8 * n + 64 * i..8 * n + 64 * i + 64];
+                        if ra != rb {
+                            return viol(
+                                "visible-result",
+                                format!("{}/data/{}", pfx, op_name(op)),
+                                format!("operation #{} {:?} delivered {} to the contract, the model says {}", i, op, hx(ra), hx(rb)),
+                            );
+                        }
                     }
                 }
                 if *code >= 0 {
@@ -1557,6 +1854,7 @@ pub fn execute(plan: &VPlan, rec: &mut Recorder) -> Option<Violation> {
                 );
             }
         }
+        }
     }
 
     // ---- determinism and stored artifact (all focuses gate on these) ----
@@ -1589,7 +1887,7 @@ pub fn execute(plan: &VPlan, rec: &mut Recorder) -> Option<Violation> {
     }
 
     // ---- energy exhaustion injected at arbitrary points (C14: total; C02.5: remainder) ----
-    if plan.focus != VFocus::Handles {
+    if plan.focus == VFocus::Host || plan.focus == VFocus::Energy {
         let used = plan.energy - r0.remaining;
         for (b, want_rem) in [(used, 0u64), (used + 17, 17)] {
             let r = run_once(plan, &art, b);
